@@ -32,7 +32,7 @@ LEVEL_NOTE = ("Trusted: Lean kernel + 3 standard axioms; the hand-written models
               "aliasing with the live block is modelled but not transmitted). What the value transformations do is C10/C11; here "
               "that they leave the block structure alone is proved.")
 TECHNIQUE = "Lean 4 proof: invariant of sequential key-safe insertion vs a first-occurrence specification; differential correspondence"
-RULE = ("grammar-derived documents with entry keys, @string keys and field keys drawn from pools of 3 (collisions of every "
+RULE = ("documents cut between two blocks and parsed in two calls (parse_string(first), parse_string(second, library=...)) against one call; grammar-derived documents with entry keys, @string keys and field keys drawn from pools of 3 (collisions of every "
         "multiplicity and interleaving: entry vs string with the same name, duplicates of duplicate-field entries), plus "
         "bounded-exhaustive sequences of <= k tiny blocks over {@a{x}, @a{y}, @string{x=1}, @a{x,f=1,f=2}, @comment{c}, junk} "
         "(k=5 quick, 6 thorough). Every text is sent twice: parse_string(text, parse_stack=[]).blocks vs the model of "
